@@ -112,6 +112,27 @@ struct Case {
     /// pinned to any processor of the hardware, not only to the quota-limited default set.
     #[serde(default)]
     quota_tenths: u8,
+    /// delay injection at the pool's own synchronisation operations (every atomic operation and
+    /// mutex acquisition of vicinal reports to the harness through the cfg(folo_verif) sync shim):
+    /// the `k`-th such operation of a class of threads sleeps `ms` milliseconds, which lets
+    /// complete operations of the other threads land inside that window - also inside windows
+    /// that only a change to the library creates and no named yield point anticipates
+    #[serde(default)]
+    pauses: Vec<Pause>,
+}
+
+#[derive(Debug, Clone, Serialize, Deserialize)]
+struct Pause {
+    /// 0 = pool worker threads, 1 = spawning (harness) threads, 2 = the thread dropping the pool
+    role: u8,
+    /// 1-based index among the synchronisation operations of that class in this case
+    k: u16,
+    ms: u8,
+}
+
+fn pauses_strategy() -> impl Strategy<Value = Vec<Pause>> {
+    let p = (0u8..3, prop_oneof![4 => 1u16..12, 3 => 12u16..60, 1 => 60u16..400], prop_oneof![3 => 2u8..6, 2 => 6u8..25]).prop_map(|(role, k, ms)| Pause { role, k, ms });
+    prop_oneof![4 => Just(Vec::new()), 3 => prop::collection::vec(p.clone(), 1..=1), 3 => prop::collection::vec(p, 2..=4)]
 }
 
 // ------------------------------------------------------------------------------------------------
@@ -169,8 +190,9 @@ fn case_strategy() -> impl Strategy<Value = Case> {
         ],
         any::<bool>(),
         prop::bool::weighted(0.35),
+        pauses_strategy(),
     )
-        .prop_map(|(hw, workers_per_processor, threads, drop, keep_scheduler, hold_workers)| Case { hw, workers_per_processor, threads, drop, keep_scheduler, hold_workers, quota_tenths: 0 })
+        .prop_map(|(hw, workers_per_processor, threads, drop, keep_scheduler, hold_workers, pauses)| Case { hw, workers_per_processor, threads, drop, keep_scheduler, hold_workers, quota_tenths: 0, pauses })
 }
 
 /// The yield points of the spawner (S) and of the dropper (D), each in program order.
@@ -239,6 +261,7 @@ fn race_cases() -> Vec<Case> {
                         keep_scheduler,
                         hold_workers: false,
                         quota_tenths: 0,
+                        pauses: Vec::new(),
                     });
                 }
             }
@@ -262,6 +285,7 @@ fn quota_cases() -> Vec<Case> {
                 keep_scheduler: true,
                 hold_workers: false,
                 quota_tenths,
+                pauses: Vec::new(),
             });
         }
     }
@@ -603,6 +627,10 @@ struct Shared {
     forget_wait_ok: bool,
     /// points the racing threads actually passed (classification only)
     race_hits: Mutex<Vec<&'static str>>,
+    /// delay injection plan and per-class counters of synchronisation operations
+    pauses: Vec<Pause>,
+    sync_counts: [AtomicU32; 3],
+    pauses_taken: AtomicU32,
 }
 
 impl Shared {
@@ -680,6 +708,55 @@ fn on_point(name: &'static str) {
     race.arrive(point, true, Some(&me.sh.status[me.idx]));
     me.sh.race_hits.lock().unwrap().push(name);
 }
+
+/// Called before every atomic operation / mutex acquisition of vicinal (sync shim hooks).
+fn on_sync() {
+    let me = ME.with(|m| m.borrow().clone());
+    let (sh, role) = match me {
+        Some(me) => {
+            let role = if me.role == 2 { 2 } else { 1 };
+            (me.sh, role)
+        }
+        None => {
+            // pool worker threads are named <pool name>-<processor id>-<worker index>
+            if !thread::current().name().is_some_and(|n| n.starts_with(POOL_NAME)) {
+                return;
+            }
+            let Some(sh) = CURRENT.lock().unwrap().clone() else { return };
+            (sh, 0)
+        }
+    };
+    if sh.pauses.is_empty() {
+        return;
+    }
+    let n = sh.sync_counts[role].fetch_add(1, SeqCst) + 1;
+    for p in &sh.pauses {
+        if usize::from(p.role % 3) == role && u32::from(p.k) == n {
+            sh.pauses_taken.fetch_add(1, SeqCst);
+            thread::sleep(Duration::from_millis(u64::from(p.ms.min(40))));
+        }
+    }
+}
+
+fn sync_atomic(_addr: usize, _op: vicinal::__verif::AtomicOp, _s: std::sync::atomic::Ordering, _f: std::sync::atomic::Ordering, exec: &mut dyn FnMut() -> (u64, Option<u64>)) -> u64 {
+    on_sync();
+    exec().0
+}
+
+fn sync_fence(_o: std::sync::atomic::Ordering) {}
+
+fn sync_spin() {
+    std::hint::spin_loop();
+}
+
+fn sync_mutex_lock(_addr: usize, try_lock: &mut dyn FnMut() -> bool) {
+    on_sync();
+    while !try_lock() {
+        thread::yield_now();
+    }
+}
+
+fn sync_mutex_unlock(_addr: usize) {}
 
 struct ParkWaker(thread::Thread);
 
@@ -1020,6 +1097,9 @@ fn run_case(case: &Case) -> WReply {
         keep_scheduler: case.keep_scheduler,
         forget_wait_ok: res.drop == RDrop::AfterPre && !res.has_blockers,
         race_hits: Mutex::new(Vec::new()),
+        pauses: case.pauses.clone(),
+        sync_counts: [AtomicU32::new(0), AtomicU32::new(0), AtomicU32::new(0)],
+        pauses_taken: AtomicU32::new(0),
     });
     *CURRENT.lock().unwrap() = Some(Arc::clone(&sh));
     set_me(Some(Me { sh: Arc::clone(&sh), idx: n, role: 2 }));
@@ -1135,6 +1215,15 @@ fn judge(case: &Case, res: &Resolved, sh: &Arc<Shared>, base_all: usize, real: b
         classes.push(if hold.st.lock().unwrap().forced > 0 { "wake:spawn-completed-between-empty-check-and-listener" } else { "wake:workers-held-none-forced" }.into());
     }
     classes.push(if case.keep_scheduler { "scheduler:kept-while-awaiting" } else { "scheduler:dropped-before-awaiting" }.into());
+    if !case.pauses.is_empty() {
+        let taken = sh.pauses_taken.load(SeqCst);
+        classes.push(if taken > 0 { "delay-injected-at-sync-op" } else { "delay-plan-not-reached" }.into());
+        for p in &case.pauses {
+            if u32::from(p.k) <= sh.sync_counts[usize::from(p.role % 3)].load(SeqCst) {
+                classes.push(format!("delay-injected:{}", ["worker", "spawner", "dropper"][usize::from(p.role % 3)]));
+            }
+        }
+    }
 
     let mut failures: Vec<(String, String)> = std::mem::take(&mut *sh.failures.lock().unwrap());
     let outcomes = sh.outcomes.lock().unwrap().clone();
@@ -1410,6 +1499,7 @@ fn hang_reply() -> WReply {
 fn worker_main() -> ! {
     std::panic::set_hook(Box::new(|_| {}));
     vicinal::__verif::install_point_hook(Some(on_point));
+    vicinal::__verif::install(Some(vicinal::__verif::Hooks { atomic: sync_atomic, fence: sync_fence, spin: sync_spin, mutex_lock: sync_mutex_lock, mutex_unlock: sync_mutex_unlock }));
     serve(|line| {
         let req: WRequest = match serde_json::from_str(line) {
             Ok(r) => r,
